@@ -9,6 +9,7 @@
 import SvgVerif.Proofs.DocLoop
 import SvgVerif.Model.DocShape
 import SvgVerif.Props.C04
+import SvgVerif.Model.Reify
 namespace Svg.Doc
 set_option linter.unusedSectionVars false
 
@@ -554,3 +555,70 @@ example (cfg : Cfg ℚ) :
 
 end Matrix
 end Svg.Doc
+
+/-! ### 6. reification does not move anything -/
+namespace Svg.Reify
+section
+variable {K : Type} [Field K] [LinearOrder K]
+open Svg.Mat
+
+theorem foldable_spec (m : Mat K) (h : foldable m = true) : m.b = 0 ∧ m.c = 0 ∧ m.a ≠ 0 ∧ m.d ≠ 0 := by
+  unfold foldable at h
+  simp only [Bool.and_eq_true, Bool.not_eq_true', beq_iff_eq, beq_eq_false_iff_ne, ne_eq] at h
+  exact ⟨h.1.1.1.2, h.1.1.2, h.1.2, h.2⟩
+
+/-- a foldable matrix is the axis-aligned map `(x, y) ↦ (a x + e, d y + f)` -/
+theorem foldable_apply (m : Mat K) (h : foldable m = true) (p : Pt K) :
+    apply m p = ⟨m.a * p.x + m.e, m.d * p.y + m.f⟩ := by
+  obtain ⟨hb, hc, _, _⟩ := foldable_spec m h
+  simp only [apply, hb, hc, Pt.mk.injEq]
+  constructor <;> ring
+
+/-- **What is folded in leaves nothing behind**: the residual matrix of a folded rect, circle or
+    ellipse is the identity. -/
+theorem C03_reify_residual_identity (m : Mat K) (h : foldable m = true) : residual m = identity := by
+  obtain ⟨hb, hc, ha, hd⟩ := foldable_spec m h
+  simp only [residual, mul, translate, scale, identity, Mat.mk.injEq, hb, hc]
+  refine ⟨?_, ?_, ?_, ?_, ?_, ?_⟩ <;> field_simp <;> ring
+
+/-- **Rect.** Every point of the rectangle — given by its box parameters `(u, v)`, and for the
+    rounded corners by a corner centre `(x + sx·rx, y + sy·ry)` plus a point `(rx·c, ry·s)` of the
+    corner ellipse — is sent by the full matrix exactly where the reified rectangle (new x, y,
+    width, height, rx, ry under the identity) has the corresponding point. -/
+theorem C03_reify_rect_pointwise (x y w h rx ry u v c s sx sy : K) (m : Mat K) (hf : foldable m = true) :
+    let r := (rect x y w h rx ry m).1
+    apply m ⟨x + u * w + sx * rx + rx * c, y + v * h + sy * ry + ry * s⟩ =
+      ⟨r.getD 0 0 + u * r.getD 2 0 + sx * r.getD 4 0 + r.getD 4 0 * c, r.getD 1 0 + v * r.getD 3 0 + sy * r.getD 5 0 + r.getD 5 0 * s⟩ := by
+  simp only [rect, hf, if_true]
+  rw [foldable_apply m hf]
+  simp only [List.getD_cons_zero, List.getD_cons_succ, Pt.mk.injEq]
+  constructor <;> ring
+
+/-- **Circle / ellipse.** The point at parameter `(c, s)` of the ellipse goes to the point at the
+    same parameter of the reified ellipse. -/
+theorem C03_reify_round_pointwise (cx cy rx ry c s : K) (m : Mat K) (hf : foldable m = true) :
+    let r := (round cx cy rx ry m).1
+    apply m ⟨cx + rx * c, cy + ry * s⟩ = ⟨r.getD 0 0 + r.getD 2 0 * c, r.getD 1 0 + r.getD 3 0 * s⟩ := by
+  simp only [round, hf, if_true]
+  rw [foldable_apply m hf]
+  simp only [List.getD_cons_zero, List.getD_cons_succ, Pt.mk.injEq]
+  constructor <;> ring
+
+/-- not foldable: numbers and matrix are untouched -/
+theorem C03_reify_unfoldable_unchanged (x y w h rx ry : K) (m : Mat K) (hf : foldable m = false) :
+    rect x y w h rx ry m = ([x, y, w, h, rx, ry], m) ∧
+    round x y rx ry m = ([x, y, rx, ry], m) := by
+  simp [rect, round, hf]
+
+/-- **Lines, polylines, polygons.** Every point is replaced by its image and the matrix reset:
+    the absolute position of each point is the same before and after. -/
+theorem C03_reify_points (ps : List (Pt K)) (m : Mat K) :
+    ((points ps m).1.map (apply (points ps m).2)) = ps.map (apply m) := by
+  simp only [points, List.map_map]
+  apply List.map_congr_left
+  intro p _
+  exact (C04.C04_identity_neutral m (apply m p)).2.2
+
+end
+end Svg.Reify
+
